@@ -37,6 +37,11 @@ def main():
                                                                 threshold_pairs=[(0.4, 0.5), (0.5, 0.75)])))
         ck.e2('partition-%s' % e, h_laws.make_laws(dict(entry=e, law='partition', nl=2, nr=2, k=1, kmin=0,
                                                         thresholds=thr)))
+    # transposition under an arbitrary global token order (per-split function, one wide pair)
+    for measure in ('JACCARD', 'COSINE', 'DICE'):
+        ck.e2('transpose-core-%s' % measure, h_laws.make_transpose_core(dict(
+            measure=measure, nl=1, nr=1, k=5 if not quick else 4, thresholds=[0.3, 0.5, 0.8], comp_ops=['>='])),
+            bounds=dict(rows='1x1', k=4, order='arbitrary'))
     # the edit-distance join: same three laws on symbolic strings (real q-gram tokenizer)
     from harness import h_ed
     edb = dict(nl=1, nr=1, lens=[1, 2] if quick else [0, 1, 2], q=[2], padding=[True], props=['C13'])
